@@ -224,6 +224,19 @@ CLAIMS['C14'] = dict(
          'twice-differentiable functions.',
     technique='taint (noninterference) analysis, statement ordering, guard dominance with chained comparisons, exact polynomial algebra on the constraint tables')
 
+CLAIMS['C08'] = dict(
+    text='Decides ONLY the structural clauses of the property; its core -- that fixed-column slicing and line counting recover every '
+         'number of every well-formed ADF file for all grid sizes -- is input-quantified text processing with no structural invariant '
+         'and is not decided. Decided on all 11 install routes and 6 parsers: the nesting and record keys produced by each parser '
+         '(and converter) are exactly what the repository updater unpacks (abstract tracing); the documented conversions per output '
+         'key (ADF11 ne = 1e6 10^x, te = 10^x, rates = 1e-6 10^x with the charge offset -1 exactly for scd/plt/pls and each route '
+         'passing its own file type; ADF12 densities x 1e6 and all q* x 1e-6; ADF15 ne x 1e6, rate x 1e-6, wavelength / 10; ADF21/22 '
+         'densities x 1e6 and sen, st, sref x normalisation, 1e-6 for 21 and 22-BME, 1 for 22-BMP; the factors themselves); the three '
+         'ADF15 header scrapers agree on block-type map, Angstrom-to-nm conversion and output tables and use only regex groups their '
+         'patterns define; reject paths (ADF11 element check before any table is read, absent ADF15 block raises, header/metadata '
+         'validation); axis order (ADF11 reshape((n_te, n_ne)) + swapaxes, ADF15 reshape((n_ne, n_te)), ADF2x sv[:, density]).',
+    technique='abstract tracing of install routes (producer/consumer dict-shape agreement), structural conversion-chain matching, sibling agreement, regex group counting via re.compile')
+
 # ---- everything not claimed above is pending / not applicable
 _pending = 'check not built yet in this session (see DESIGN.md build order); not claimed until it is'
 for _p in ['C%02d' % i for i in range(1, 21)]:
